@@ -147,11 +147,7 @@ func c10Body(sc *WF) Verdict {
 		if !intsEq(storePath(rn.Store), storePath(rf.Store)) {
 			return bad("C10:store", "run %d: nested store path %v, flat %v", r, storePath(rn.Store), storePath(rf.Store))
 		}
-		if rn.Err != nil {
-			if fp, msg := c04Judge(tn, rn.Err); msg != "" {
-				return bad("C10:inner-error:"+fp, "nested: %s", msg)
-			}
-		}
+		// (which error value comes back is C04's clause; C10 compares outcome with the flat machine)
 		// the reference interpreter must agree as well
 		if !sameShape(tn, mr.Trace) {
 			return bad("C10:model", "run %d: nested ran %v, reference interpreter %v", r, sn, modelStrings(mr.Trace))
